@@ -64,6 +64,14 @@ def check_classes(rule, prog, which, fn_line):
             rule.violation("class:%s" % name, "%s wrongly contains %s" % (name, fmt(extra)), fn_line(prog, k), {"set": fmt(s)})
         else:
             rule.ok("class:%s" % name, "%d characters, ⊇ %s" % (len(s), desc))
+    # every vowel sign is a vowel (the rules say "after a vowel or vowel sign" and test is_vowel)
+    if all(n in sets and sets[n][1] is not None for n in ("is_vowel", "is_kar")) and {"is_vowel", "is_kar"} <= set(which):
+        odd = sets["is_kar"][1] - sets["is_vowel"][1]
+        if odd:
+            rule.violation("class:signs-are-vowels", "is_kar is true for %s but is_vowel is not: after such a sign the 'after a vowel or vowel sign' rules do not apply "
+                           "and the reph scan does not count it" % fmt(odd), fn_line(prog, sets["is_vowel"][0]))
+        else:
+            rule.ok("class:signs-are-vowels", "is_kar ⊆ is_vowel")
     # disjointness
     if all(n in sets and sets[n][1] is not None for n in ("is_vowel", "is_pure_consonant")) and {"is_vowel", "is_pure_consonant"} <= set(which):
         inter = sets["is_vowel"][1] & sets["is_pure_consonant"][1]
